@@ -15,6 +15,7 @@ import Imeta.Model.Png
 import Imeta.Props.C10
 import Imeta.Props.C12
 import Imeta.Lemmas.ExifNested
+import Imeta.Lemmas.ExifField4
 namespace Imeta.Png
 open Imeta
 
@@ -166,6 +167,35 @@ theorem C06_same_payload_same_reads (tb : Tables) (F : Bytes) (buffered : Bool) 
   ⟨fun r' e hr => let hn := decodeTiff_nested tb F buffered h cnt r' e W hsmall w4 hroot4 hrootW hr; ⟨hn.1, hn.2.1⟩,
    fun r' e hr => decodeJPEGIfd_nested tb F buffered h cnt r' e W hsmall w hroot hrootW hr,
    fun r' e hr => decodeIfd_nested tb F (F.drop h.firstIfd) buffered h cnt r' e W hsmall rfl hfi w hroot hrootW hr⟩
+
+/-- **The same payload gives the same field through every entry variant** (Software; the other thirteen fields of
+Lemmas/ExifField – ExifField4 likewise): if `a` is the last Software entry each variant parsed — it is the same entry, since
+all three read the same directories of F — then DecodeTiff, DecodeJPEGIfd and DecodeIfd all report
+F[a.off, a.off+a.size) minus trailing padding: the container contributes nothing to the value. -/
+theorem C06_same_payload_same_software (tb : Tables) (F : Bytes) (buffered : Bool) (h : Hdr) (cnt : Nat) (W : Tag → Prop)
+    (hsmall : F.length < 2 ^ 32) (hfi : h.firstIfd ≤ F.length)
+    (w : World F h.exifLength (if buffered then bufioSize else scratchSize) W)
+    (w4 : World F (4 * 1024 * 1024) (if buffered then bufioSize else scratchSize) W)
+    (hroot : DirOK F { off := 0, base := 0, order := h.order, typ := h.firstIfdType, idx := 0 } h.firstIfd cnt h.exifLength
+      (if buffered then bufioSize else scratchSize) (extent F))
+    (hroot4 : DirOK F { off := 0, base := 0, order := h.order, typ := h.firstIfdType, idx := 0 } h.firstIfd cnt (4 * 1024 * 1024)
+      (if buffered then bufioSize else scratchSize) (extent F))
+    (hrootW : ∀ x, IsEntry F { off := 0, base := 0, order := h.order, typ := h.firstIfdType, idx := 0 } h.firstIfd cnt x ∨
+      IsStubEntry F { off := 0, base := 0, order := h.order, typ := h.firstIfdType, idx := 0 } h.firstIfd cnt x → W x)
+    (a : Tag) (h0 : a.ifd = ifd0) (hid : a.id = 0x0131) (hemb : a.isEmbedded = false) (hasc : isASCII a = true)
+    (r1 r2 r3 : R) (e1 e2 e3 : Option ErrKind)
+    (hr1 : decodeTiff tb F buffered h = .ok (r1, e1)) (hr2 : decodeJPEGIfd tb F buffered h = .ok (r2, e2))
+    (hr3 : decodeIfd tb (F.drop h.firstIfd) buffered h = .ok (r3, e3))
+    (pre1 post1 pre2 post2 pre3 post3 : List Tag)
+    (hs1 : r1.parsed = pre1 ++ a :: post1) (hp1 : ∀ t ∈ post1, ¬(t.ifd = ifd0 ∧ t.id = 0x0131))
+    (hs2 : r2.parsed = pre2 ++ a :: post2) (hp2 : ∀ t ∈ post2, ¬(t.ifd = ifd0 ∧ t.id = 0x0131))
+    (hs3 : r3.parsed = pre3 ++ a :: post3) (hp3 : ∀ t ∈ post3, ¬(t.ifd = ifd0 ∧ t.id = 0x0131)) :
+    r1.ex.software = trimNUL (slice F a) ∧ r2.ex.software = r1.ex.software ∧ r3.ex.software = r1.ex.software := by
+  obtain ⟨t1, t2, t3⟩ := C06_same_payload_same_reads tb F buffered h cnt W hsmall hfi w w4 hroot hroot4 hrootW
+  have a1 := software_exact (t1 r1 e1 hr1).2 pre1 post1 a hs1 h0 hid hemb hasc hp1
+  have a2 := software_exact (t2 r2 e2 hr2).2 pre2 post2 a hs2 h0 hid hemb hasc hp2
+  have a3 := software_exact (t3 r3 e3 hr3).2 pre3 post3 a hs3 h0 hid hemb hasc hp3
+  exact ⟨a1, by rw [a2, a1], by rw [a3, a1]⟩
 
 end Imeta.Exif
 
